@@ -39,15 +39,19 @@ def main() -> None:
             verdict = 'not run'
         if q and not q['detected'] and det.get('thorough', {}).get('detected'):
             verdict = 'caught by thorough tier only'
+        if meta.get('neutralised_by_fix'):
+            verdict = f'no longer breaks the property (repaired defect {meta["neutralised_by_fix"]})'
         summary = meta.get('summary') or first_line(meta.get('needs_to_manifest', ''))
         if meta.get('history'):
-            verdict += ' - ' + meta['history'].split(';')[0].split(':')[0]
+            head = re.sub(r'\s*at first', '', meta['history'].split(';')[0].split(':')[0]).replace('(', '- ').replace(')', '')
+            verdict += ' [first run: ' + head.strip() + ']'
         rows.append((name, meta['property'], ', '.join(files), summary[:170].replace('|', '/'), verdict))
     print('| seeded change | property | file | what it needs to manifest | result of `./check <property> --tier quick` |')
     print('|---|---|---|---|---|')
     for r in rows:
         print('| ' + ' | '.join(r) + ' |')
-    print(f'\n{len(rows)} seeded changes; {sum("caught" in r[4] for r in rows)} caught.')
+    print(f'\n{len(rows)} seeded changes; {sum(r[4].startswith("caught") for r in rows)} caught by the quick tier; '
+          f'{sum("no longer breaks" in r[4] for r in rows)} neutralised by a repair of the unchanged tree.')
 
 
 if __name__ == '__main__':
